@@ -32,6 +32,17 @@ CHECKS = {
             "Full. 'With probability p' is read as: lost iff the uniform draw is < loss_rate. Admissibility of the real kernel's "
             "executions (urgent steps before the clock advances) is checked on every observed execution, and is C01's theorem for the kernel model.",
             "DESIGN.md section 4 C10, section 8"),
+    "C13": ("For all rates > 0, all priority tables over distinct flows and all admissible executions of the Gallina model of the repaired SP "
+            "(onl/scheduler/sp.py + base.py): whenever run() dequeues a packet of flow f every flow of larger priority holds nothing "
+            "(C13_sp_strict); at the start of the transmission anything a higher flow holds arrived in that very instant after the "
+            "dequeue (C13_sp_strict_at_start, C13_sp_commit_same_instant); transmissions are never aborted (C13_sp_non_preemptive); the "
+            "pinned loop is refuted (C13_sp_strict_refuted_before_fix). The model is compared with the real SP on 300 (quick) / 9000 "
+            "(thorough) executions per run, every observed kernel step checked admissible.",
+            "Full, with this reading of 'waiting at that instant': the kernel orders occurrences inside an instant; the scheduler commits "
+            "at the dequeue (store.get granted); a higher-priority packet put between that dequeue and the start of the transmission "
+            "process in the same instant is not displaced (non-preemptive). Defect repaired: /repo 0e96376 (SP served one packet per "
+            "class per pass).",
+            "DESIGN.md section 4 C13, section 8"),
     "C16": ("ACK clause: C16_ack_is_prefix / C16_ack_monotone hold for every arrival sequence (any order, duplicates, gaps, missing first "
             "segment) of the Gallina model of TCPSink; the model is compared with the real TCPSink on 1000 (quick) / 20000 (thorough) "
             "generated arrival sequences per run; the pre-fix ACK choice is refuted by a witness (C16_ack_refuted_before_fix).",
